@@ -10,8 +10,9 @@ import GoldModel.Lemmas.ProgRoundTrip
   statement, `return e`, `exit`/`break`/`continue`, `var x : T [absolute y]`, `type aName : T`, `uses a, b`,
   `const c = lit`, and the blocks
   `if e … [elseif e …]* [else …] endif`, `while e … endwhile`, `loop … endloop`,
-  `for i = e to|downto e [step e] … endfor`, `foreach e … endfor`, `repeat … until e`, whose bodies
-  are statement LISTS of any length nested to any depth;
+  `for i = e to|downto e [step e] … endfor`, `foreach e … endfor`, `repeat … until e`,
+  `switch e (when v, w | lo to hi … endwhen)* [else …] endswitch`, whose bodies are statement LISTS of any length
+  nested to any depth;
 * declarations — `proc Name[#Event] [( [const|var|inout] p : T, … )] [modifiers] … endproc`,
   `func Name [(…)] return T [modifiers] … endfunc` (modifiers `private`, `protected`, `final`, `override`; with
   `forward` or `external "lib"` the method has NO body), `const c = literal [multiLang]`,
@@ -157,6 +158,7 @@ func Get return Int
     repeat
       continue
     until v
+    switch v when 1, cMax break endwhen when 2 to 5 endwhen else exit endswitch
   endfor
 endfunc
 proc Btn#Click() forward
@@ -205,7 +207,13 @@ private def sample : Prog Ex :=
         .expr (num "1" 21 2),
         .foreachS (tk Kind.ForEach "foreach" 22 2) (.bin (idt "v" 22 10) (tk Kind.In "in" 22 12) (idt "l" 22 15))
           [ .repeatS (tk Kind.Repeat "repeat" 23 4) [ .ctl (tk Kind.Continue "continue" 24 6) ] (tk Kind.Until "until" 25 4)
-              (idt "v" 25 10) ]
+              (idt "v" 25 10),
+            .switchS (tk Kind.Switch "switch" 25 12) (idt "v" 25 19)
+              [ .mk (tk Kind.When "when" 25 21) (.list (tk Kind.NumericLiteral "1" 25 26) [(tk Kind.Comma "," 25 27, tk Kind.Identifier "cMax" 25 29)])
+                  [ .ctl (tk Kind.Break "break" 25 34) ] (tk Kind.EndWhen "endwhen" 25 40),
+                .mk (tk Kind.When "when" 25 48) (.range (tk Kind.NumericLiteral "2" 25 53) (tk Kind.To "to" 25 55) (tk Kind.NumericLiteral "5" 25 58))
+                  [] (tk Kind.EndWhen "endwhen" 25 60) ]
+              (some (tk Kind.Else "else" 25 68)) [ .ctl (tk Kind.Exit "exit" 25 73) ] (tk Kind.EndSwitch "endswitch" 25 78) ]
           (tk Kind.EndFor "endfor" 26 2) ],
       tk Kind.EndFunc "endfunc" 27 0)),
     .proc (tk Kind.Proc "proc" 28 0) (.event (tk Kind.Identifier "Btn" 28 5) (tk Kind.Pound "#" 28 8) (tk Kind.Identifier "Click" 28 9))
